@@ -15,8 +15,20 @@ CHECKS = {
  'C03': ('numbering and content of output capture: one increment + one record per call with ordinal read after increment, entry built from the call\'s own args, one operation-output record per completed run, writer key language vs extractor filter on generated sample keys', 'typestate counters + value provenance over inlined CFG; writer/reader agreement by abstract evaluation of the filter predicate'),
  'C04': ('transparency as path properties of the decorator closures: exactly one call of the wrapped function with unmodified arguments, returned value provenance, only the body\'s own exception escapes (all tolerated faults contained), no nullable dereference after a possible discard, pass-through when idle', 'path-sensitive typestate, exception-provenance and nullable-dereference analysis over inlined CFG with exceptional edges and re-entrant API calls'),
  'C05': ('finalisation typestate of the recording scope on every exit (return, each exception atom, discard/force/enable/disable re-entry), capture-or-dead for executed interceptions, save dominated by keep decision and incomplete flag', 'typestate (exactly-once pairing) over inlined CFG with exceptional edges'),
+ 'C06': ('what may flow into an input key: scan of the key builder and everything it reaches for non-argument sources (clock, randomness, identity, hash(), environment, instance state, memoisation), raw collections only through jsonpickle.encode, kwargs through sorted(), capture selection per guard cell, fallback keys built like the main key, serializer followed into the jsonpickle sources of the repository environment (sort_keys, set iteration order)', 'taint / provenance over the key path call graph + decision-table extraction from the path-sensitive CFG + library-extended source scan'),
+ 'C07': ('writer/reader agreement of every cassette: codec pair and order, one location function of the id on both sides, what the fetched recording is rebuilt from, NoSuchRecording on every not-stored exit (graph with the facade inlined, origin of the mapped exception), in-memory store holds text', 'sibling / writer-reader agreement over the ast, path-sensitive exception provenance'),
+ 'C08': ('attribution and containment in the equalizer: yields per iteration of the run generator on every path, provenance of every Comparison argument within the iteration, exceptional exits of the play-and-compare routine and worker loop, one shared routine for both modes, channel correlation (fresh queues per worker)', 'generator typestate (yield counting per iteration) over the CFG with exceptional edges, def-use provenance, who-calls'),
  'C09': ('return-to-idle typestate of the operation decorator, play() and the input/output decorators on every exit; no per-run writes from idle', 'typestate over inlined CFG with exceptional edges'),
+ 'C10': ('sibling agreement of the three listings and the lookup helper: equality of requested and extracted category established on every path that adds an id (prefix+delimiter for S3), shared matcher, limit never tested by truthiness, S3 key parser inverts the key template with no possibly-empty field, helper forwards arguments unchanged', 'sibling cross-check with path-sensitive guard facts, sentinel classification, template/parser agreement by abstract evaluation on sample keys'),
+ 'C11': ('copy discipline: get_data returns a codec copy, get_data_direct confined to the recording phase, every fetch rebuilds from a decode made in that call and nothing decoded is cached, replay reader uses the copying read, recorded input passed through pickle_copy whenever the copy flag is set (executor graph, flag as atom)', 'who-calls + def-use provenance + path-sensitive dominance with value dependencies'),
+ 'C12': ('lock and ordering discipline of the asynchronous cassette: lock regions tracked on the CFG of every method, fields shared between producers and flusher touched under the lock only, nothing blocking under the lock, producers enqueue one closure over their own parameters, flusher applies the swapped list in order each once with failures contained, final flush after the stop signal, close order', 'lockset analysis over the CFG (with-regions incl. exceptional exits), shared-field inference by thread context, ordering / who-calls rules'),
+ 'C13': ('termination shape of comparison runs: finite timeouts on every blocking get, wait loop bounded by elapsed time, no unbounded join on a possibly hung worker, timeout path must raise / kill with SIGKILL / forget the handle, terminate signal on every exit of the run generator, recycle arithmetic (reset at creation, one increment before each dispatch, >= against the rate, ordered termination)', 'must-pass / must-raise obligations on the inlined CFG with exceptional edges, generator exit typestate, interval step on the age counter'),
+ 'C14': ('totality and documented meaning of the metadata matcher: every partial operation on an untyped value is a raise site unless guarded by isinstance / membership facts on the path or caught by a TypeError handler; every return path of the value matcher classified and checked against the documented guard order; operator table; every listing uses the matcher', 'may-raise analysis with type-guard facts on the path-sensitive CFG, decision-table extraction'),
+ 'C15': ('confinement of the S3 cassette: bucket mutators computed from the facade, call sites enumerated package-wide, every public method propagated with the facade inlined and read_only / transient as atoms (guard must be established before each mutation), mutated keys traced to own-prefix class templates, prefix normalisation evaluated on sample prefixes, order of the two puts vs the listed template', 'who-may-call + guard dominance on the inlined CFG + template provenance + order rule'),
+ 'C16': ('time-window lookup: day-folder enumeration interpreted over (calendar day, unknown time of day) and required to reach the end day for every alignment; day text / id shape agreement and per-recording clock read; the per-object instant predicate evaluated on sample instants for all bound combinations, late-bound closures, position of the limit counter; window bounds forwarded unchanged', 'small abstract interpretation (day-count domain) + abstract evaluation of the predicate + late-binding and def-use checks'),
  'C17': ('sampling policy as a decision table of the recorder decision and its S3 sibling, draw count and source, taint from the recording, precedence of skip / discard / forcing, single parameter-table key', 'decision-table extraction from path-sensitive CFG, taint (def-use closure), typestate'),
+ 'C19': ('provenance skeleton of the studio: every Equalizer argument traced to the tuning created in that call for that category (no escaping closure / bound method reading state rewritten for the next category), tuner failure path (not a generator, handler returns the exception), grouping of explicit ids by the cassette extraction each once in sorted order, category handed to the lookup', 'def-use provenance and late-binding analysis over the ast'),
+ 'C20': ('file interception: the size predicate dominates every open/read on the graph of the interception routine and the above answer returns the placeholder; strictness, unit consistency and None sentinel of the predicate; binary modes; codec pair applied to the whole content once, envelope keys, placeholder constant outside the base64 alphabet; paths from one function of the current call; input restore writes on every path; limit source order', 'dominance on the inlined CFG + writer/reader agreement + sentinel classification'),
  'C18': ('how each metadata entry is produced: class/category provenance, exception flag per scope edge, incomplete flag expression on sample key sets plus must-record obligation, duration from two reads of one clock, extractor containment and atomic merge', 'typestate per scope edge + provenance + abstract evaluation of the flag expression'),
 }
 NOT_YET = "check under construction in this session (design in DESIGN.md section 5); not claimed until built and validated"
